@@ -29,8 +29,8 @@ ASSUMPTIONS = [
     "the voxel corners (global_corners_voxels) are the authoritative advertisement; physical corners must be their image under the base coordinate system",
 ]
 FLOORS = {
-    "quick": {"patched_again_after_move": 400, "assemble_equals_base": 1500, "interiors_partition": 1500, "patch_is_advertised_subimage": 12000, "corners_voxel_vs_physical": 12000},
-    "thorough": {"patched_again_after_move": 4000, "assemble_equals_base": 15000, "interiors_partition": 15000, "patch_is_advertised_subimage": 100000, "corners_voxel_vs_physical": 50000},
+    "quick": {"base_converted_before_patching": 400, "patched_again_after_move": 400, "assemble_equals_base": 1500, "interiors_partition": 1500, "patch_is_advertised_subimage": 12000, "corners_voxel_vs_physical": 12000},
+    "thorough": {"base_converted_before_patching": 4000, "patched_again_after_move": 4000, "assemble_equals_base": 15000, "interiors_partition": 15000, "patch_is_advertised_subimage": 100000, "corners_voxel_vs_physical": 50000},
 }
 OVERLAPS = [0.0, 0.1, 0.25, 0.5]
 
@@ -204,8 +204,19 @@ def _one(R, darsia, rng, cur, shape, cnt, ov, case_no):
             if origin is not None:
                 kw["origin"] = origin
             base = darsia.Image(arr, **kw)
+            # history of the base image before it is patched: converted to another dtype (its original_dtype stays)
+            conv = [None, None, "img_as(float)", None, "astype(float32)", None, "img = img / 255"][case_no % 7]
+            if conv == "img_as(float)":
+                base = base.img_as(float)
+            elif conv == "astype(float32)":
+                base = base.astype(np.float32)
+            elif conv == "img = img / 255":
+                base.img = base.img / 255.0
+            if conv:
+                arr = base.img.copy()
+                R.count("base_converted_before_patching")
             cur.clear()
-            cur.update({"shape": list(shape), "counts": list(cnt), "rel_overlap": ov, "payload": payload, "dimensions": dims, "origin": origin})
+            cur.update({"shape": list(shape), "counts": list(cnt), "rel_overlap": ov, "payload": payload, "dimensions": dims, "origin": origin, "converted": conv})
             with contextlib.redirect_stdout(io.StringIO()):
                 ok, P = R.guarded("patches_constructible", lambda: darsia.Patches(base, list(cnt), rel_overlap=ov))
                 if not ok:
